@@ -28,6 +28,11 @@ from lib import metrics_sync as M
 from lib.common import Broken, log
 
 LEVEL = "model_checking"
+
+
+def _t(ctx, what):
+    ctx.extra.setdefault("phase_wall_s", {})[what] = ctx.timer.s()
+    log("phase done:", what, ctx.timer.s())
 MY_DEVS = [M.D1, M.D2, M.D3]
 
 WITNESSES = {
@@ -156,11 +161,14 @@ def run(ctx):
     order = ["d", "dc", "dc2v", "dcpm", "ddc"]
     M.model_check(ctx, [ideal[k] for k in order] + [asimpl[k] for k in ("d", "dc", "dc2v")],
                   workers=4 if thorough else 3, parallel=3 if thorough else 2, timeout_s=1500 if thorough else 400)
+    _t(ctx, "model checking")
     # 2. behaviours of the model ------------------------------------------------------------------------
     behs, wit_asimpl = generate(ctx)
+    _t(ctx, "behaviour generation")
     # 4. the monitor accepts the model (guard against an over-strict monitor)
     M.check_model_against_monitor(ctx, [b for b in behs if not b["mc"].dev], [], "ideal")
     M.check_model_against_monitor(ctx, wit_asimpl, MY_DEVS, "asimpl")
+    _t(ctx, "model behaviours accepted by the monitor")
     # 2./3. execute on the real SDK, validate with the monitor ----------------------------------------
     rng = random.Random(ctx.seed * 31 + 5)
     nconc = 5 if thorough else 2
@@ -171,12 +179,14 @@ def run(ctx):
             programs.append(M.program_from_behaviour(b, x, rng))
     res = execute_and_validate(ctx, exe, programs, "beh")
     ctx.extra["behaviours_executed"] = len(programs)
+    _t(ctx, "behaviours executed + validated")
     for p in programs[:1]:
         ctx.sample({"kind": "TLC behaviour executed on the real SDK (program)", "src": p["src"], "temps": p["temps"],
                     "filters": p["filters"], "kind_vt": [p["kind"], p["vt"]], "ops": p["ops"][:12]})
     rp = random_programs(ctx, 1500 if thorough else 150, x + 1)
     res2 = execute_and_validate(ctx, exe, rp, "rnd")
     ctx.extra["random_histories_executed"] = len(rp)
+    _t(ctx, "random histories executed + validated")
     ctx.extra["random_history_events"] = res2["events"]
     ctx.sample({"kind": "random history (first operations)", "temps": rp[0]["temps"], "filters": rp[0]["filters"],
                 "ops": rp[0]["ops"][:10]})
